@@ -618,9 +618,9 @@ def run(eng, rep):
     rep.explain('Also decided: no stored Model array is modified in place through a local it is a view of (T11, C16-5); the fitted model and every Lagrange polynomial take both their '
                 'constant and their gradient from rows of one solution of the interpolation system, indexed by the layout interpolation_matrix writes (C16-6).')
     rep.not_decided += ["interpolation / least-squares / Lagrange identities and their conditioning-scaled tolerances (numerical)"]
-    rule_invalidation(eng, rep)
-    rule_ownership(eng, rep)
-    rule_shift_affine(eng, rep)
-    rule_no_mutation_through_alias(eng, rep)
-    rule_solution_components(eng, rep)
-    rule_assembled_model_at_current_incumbent(eng, rep)
+    rep.guarded(rule_invalidation, eng, rep)
+    rep.guarded(rule_ownership, eng, rep)
+    rep.guarded(rule_shift_affine, eng, rep)
+    rep.guarded(rule_no_mutation_through_alias, eng, rep)
+    rep.guarded(rule_solution_components, eng, rep)
+    rep.guarded(rule_assembled_model_at_current_incumbent, eng, rep)
